@@ -4,6 +4,7 @@ CONSTANTS
   Rounds = 2
   PerRound = 1
   NotifyMode = "token"
+  TempApps = {}
   ExitMode = "recheck"
 INVARIANTS FIFO LockOK
 CONSTRAINT Mark
